@@ -4,6 +4,7 @@
    heap memory safety of the C program is not modelled (sanitizer-assisted search, see props/c19.py). *)
 From Coq Require Import List NArith Arith Lia.
 From Cproc Require Import Model.Map Proofs.MapProofs Model.Zero Proofs.ZeroProofs.
+From Cproc Require Properties.Properties_C04 Properties.Properties_C14 Properties.Properties_C15 Properties.Properties_C03.
 Import ListNotations.
 
 (* keyindex's probe loop ends within cap steps on every table any history can produce (any hash). *)
@@ -34,3 +35,40 @@ Print Assumptions C19_zero_terminates_in_bounds.
 Example C19_zero_nonvacuous :
   zero 40 16 1 21 = ZDone [(1, 1); (2, 2); (4, 4); (8, 8); (16, 8)]%N 24%N /\ (exists k, 16 = 2 ^ k)%N.
 Proof. split; [vm_compute; reflexivity|exists 4%N; reflexivity]. Qed.
+
+(* ---- termination / bound / no-trap lemmas proved under other properties, collected here because C19 relies on them
+        (each statement is exactly the one of the cited theorem; see that file for the reading) ---- *)
+
+(* eval.c: constant folding never executes a host division that traps (every expression tree) *)
+Theorem C19_folding_never_traps : ltac:(let t := type of Properties_C04.C04_no_trap in exact t).
+Proof. exact Properties_C04.C04_no_trap. Qed.
+Print Assumptions C19_folding_never_traps.
+
+(* eval.c: every shift count used by the folder is in [0, 64) *)
+Theorem C19_fold_shift_count_bound : ltac:(let t := type of Properties_C04.C04_shift_count_bound in exact t).
+Proof. exact Properties_C04.C04_shift_count_bound. Qed.
+Print Assumptions C19_fold_shift_count_bound.
+
+(* tree.c: the path array a[MAXH] of treeinsert never overflows for fewer than 2^64 nodes *)
+Theorem C19_tree_path_fits : ltac:(let t := type of Properties_C15.C15_path_fits in exact t).
+Proof. exact Properties_C15.C15_path_fits. Qed.
+Print Assumptions C19_tree_path_fits.
+
+(* utf.c: utf8dec never reads past a literal's closing quote; the encoders' assert(0) is unreachable from literals;
+   stringconcat writes no more elements than its strlen-based buffer holds *)
+Theorem C19_utf8dec_in_bounds : ltac:(let t := type of Properties_C14.C14_utf8dec_in_bounds in exact t).
+Proof. exact Properties_C14.C14_utf8dec_in_bounds. Qed.
+Print Assumptions C19_utf8dec_in_bounds.
+
+Theorem C19_literal_encoders_no_assert : ltac:(let t := type of Properties_C14.C14_no_assert_pipeline in exact t).
+Proof. exact Properties_C14.C14_no_assert_pipeline. Qed.
+Print Assumptions C19_literal_encoders_no_assert.
+
+Theorem C19_stringconcat_safe : ltac:(let t := type of Properties_C14.C14_stringconcat_safe in exact t).
+Proof. exact Properties_C14.C14_stringconcat_safe. Qed.
+Print Assumptions C19_stringconcat_safe.
+
+(* qbe.c: emitfunc terminates on every block list the builder can produce (no block labelled twice) *)
+Theorem C19_emitfunc_terminates : ltac:(let t := type of Properties_C03.C03_builder_inv in exact t).
+Proof. exact Properties_C03.C03_builder_inv. Qed.
+Print Assumptions C19_emitfunc_terminates.
